@@ -79,7 +79,7 @@ def main():
                 os.remove(os.path.join(wt, os.path.basename(d)))
         # the check, on a private copy of the framework
         rc, out = sh("rsync -a --exclude replays --exclude 'build/gocache' --exclude '.git' %s/ %s/" % (VERIF, vc))
-        assert rc == 0, out
+        assert rc in (0, 24), out      # 24 = a file vanished while copying (someone else's scratch file)
         env2 = dict(env, VERIF_REPO=wt)
         t0 = time.time()
         rc, out = sh(["bin/check", cid, "quick"], cwd=vc, env=env2, timeout=5400)
